@@ -177,6 +177,9 @@ REWRITES = {
     "njv_call": (r"\breader\.next_json_value\(\)", r"next_json_value_of(reader)", "reader.next_json_value() is the trait method JsonParser::next_json_value of Reader<R> (contract: unit LEX); called through a free function because the verifier rejects a second trait with the reader's contract in this unit"),
     "starts_with_char": (r"\b(\w+)\.starts_with\('([ -~])'\)", r"vs2::starts_with_char(&\1, '\2')", "s.starts_with('c') for an ASCII c: the first byte of the text is c"),
     "skip_first": (r"\b(\w+)\[1\.\.\]\.to_string\(\)", r"vs2::skip_first_byte(&\1)", "s[1..].to_string() behind a one-byte first character: the text without its first byte (precondition: the first byte is ASCII, i.e. 1 is a character boundary)"),
+    "assert_exists": (r"assert!\(\s*(\w+)\.exists\(\)\s*,\s*\"[^\"]*\"\s*\);", r"vfs::require_exists(\1);", "assert!(file.exists(), msg): a path that does not exist ends the run with a panic message; otherwise nothing happens"),
+    "path_is_dir": (r"\b(\w+)\.is_dir\(\)", r"vfs::is_dir(\1)", "Path::is_dir: some boolean (nothing is known about it)"),
+    "fs_read_dir": (r"\bread_dir\((\w+)\)", r"vfs::read_dir(\1)", "std::fs::read_dir: an iterator over the entries of the directory (each may fail to be read), own iterator type with vstd's iterator laws"),
     "pub_crate": (r"\bpub\(crate\)\s+", r"pub ", "visibility is irrelevant in a single file"),
     "deref_clone": (
         r"(\w+)\.deref\(\)\.clone\(\)", r"vrc::deref_clone(&\1)", "Rc<T>::deref().clone() clones the pointee"),
